@@ -438,7 +438,8 @@ def check_main(prop, tier, seed, nworkers=None):
         print("HARNESS-ERROR: no campaign ran")
         return 2
     for he in total["harness_errors"]:
-        harness_fail.append("harness error in run %s: %s" % (he["index"], he["error"]))
+        last = [ln for ln in str(he["error"]).strip().splitlines() if ln.strip()][-1:] or [""]
+        harness_fail.append("harness error in run %s: [%s] %s" % (he["index"], last[0][:200], he["error"]))
 
     own = [v for v in total["violations"] if v["property"] == prop]
     others = [v for v in total["violations"] if v["property"] != prop]
